@@ -23,3 +23,16 @@ step.register_matrix(
     quick=lambda key, n, L, by: L == 2 and (n <= 1 or (n == 2 and key == "u_swap")) and key != "d_same_by",
     split=lambda key, n, L, by: by and n >= 1,
     tags=lambda n: ["accepted", "q_new"] + (["rejected", "append", "extend", "contained"] if n else []), twins=2)
+
+
+# ---- (C) bulk helpers: add_interactions_from / add_path / add_star / add_cycle (methods and dn.* forms) behave exactly like the
+# explicit add_interaction sequence (the conditions are shared with C07, where the failing-element case is the subject)
+def _bulk():
+    from . import h_c07
+    for nm, c in h_c07.REG.conds.items():
+        if nm.startswith("bulk_") and c.cfg["removal"]:
+            REG.add(nm, h_c07.T_bulk, h_c07.bulk_body, cfg=c.cfg, tier=c.tier, timeout=c.timeout, tags=c.tags, twins=1,
+                    bounds=c.bounds, what=c.what + "; timelines canonical and no run object shared between two pairs")
+
+
+_bulk()
